@@ -1,5 +1,6 @@
 import RTV.Lemmas.Span
 import RTV.Lemmas.Preprocess
+import RTV.Lemmas.Merged
 import RTV.Gen.CharTables
 import RTV.Gen.Preprocess
 /-!
@@ -280,3 +281,121 @@ theorem phoneRespan_span (sp : Nat → Bool) (src : Str) (e : ER) (ms me : Nat) 
   refine ⟨trivial, by omega, trivial⟩
 
 end RTV.Span
+
+namespace RTV.Merged
+open RTV.Py RTV.Span
+
+/-- C01 `BaseMergedExtractor.extract`: every returned entity is one of the sub-extractors' entities (same tag),
+possibly widened by modifier merges; it lies inside the query and its text is the slice at its offsets — provided
+the sub-extractor outputs do (`mergeAllTokens_text`) and each merge is well formed (`ModsOK`). -/
+theorem mergedExtract_spans (src : Str) (inputs : List (List ER)) (unspecific ambiguous : ER → Bool)
+    (ops : Nat → List ModOp) (calendar : ER → Bool)
+    (hin : ∀ l ∈ inputs, ∀ e ∈ l, e.start + e.len ≤ src.length ∧ e.text = sl src e.start e.len)
+    (hok : ∀ l ∈ inputs, ∀ e ∈ l, ModsOK src e (ops e.tag)) :
+    ∀ o ∈ mergedExtract src inputs unspecific ambiguous ops calendar,
+      o.start + o.len ≤ src.length ∧ o.text = sl src o.start o.len ∧
+      ∃ l ∈ inputs, ∃ e ∈ l, o.tag = e.tag ∧ o.start ≤ e.start ∧ e.start + e.len ≤ o.start + o.len := by
+  intro o ho
+  unfold mergedExtract at ho
+  simp only at ho
+  rw [(sortByStart_spec Disjoint (fun _ _ h => h.symm) _).1 o] at ho
+  have ho := (List.mem_filter.1 ho).1
+  unfold addMods at ho
+  simp only [List.mem_map] at ho
+  obtain ⟨e, he, rfl⟩ := ho
+  have he1 := (List.mem_filter.1 he).1
+  have he2 := (removeIter_sublist unspecific _).subset he1
+  obtain ⟨l, hl, hel⟩ := addChain_mem inputs e he2
+  have hb := hin l hl e hel
+  have h := applyMods_span src (ops e.tag) e (hok l hl e hel) hb.1 hb.2
+  exact ⟨h.1, h.2.1, l, hl, e, hel, h.2.2.2.2, h.2.2.1, h.2.2.2.1⟩
+
+/-- C01 `BaseMergedParser.parse`, modifier(s) at the beginning of the entity text: whatever combination the
+`if / elif` chain and the `around` block select — none, `around` alone, before / after / since alone, each of
+them followed by `around` (`since around 2010`), `equal` alone — popping after the sub-parser restores exactly the
+`(start, length, text)` that was pushed: every modifier is restored once. -/
+theorem parser_push_pop (f : Facts) (e : Sp) (hl : e.len = e.text.length) (hA : f.isAfter = false)
+    (hk : f.kind = .none ∨
+      ((f.kind = .before ∨ f.kind = .after ∨ f.kind = .since) ∧ f.kindBegin = true ∧ f.kindM.1 = 0) ∨
+      (f.kind = .equal ∧ f.around = false ∧ f.kindM.1 = 0))
+    (hfit : preLength f + (if f.around then f.aroundM.1 + f.aroundM.2 else 0) ≤ e.text.length ∧
+      (f.kind ≠ .none → f.kindM.2 ≤ e.text.length)) :
+    pop f true true (push f e).e (push f e).modStr = e := by
+  obtain ⟨kind, ⟨ki, kl⟩, kb, ar, ⟨ai, al⟩, ia⟩ := f
+  simp only at hA hk hfit
+  subst hA
+  have hsl : sliceI e.text ((0 : Nat) : Int) (e.text.length : Int) = e.text := by
+    rw [sliceI_drop e.text 0 (by omega)]; rfl
+  rcases hk with rfl | ⟨hkind, rfl, rfl⟩ | ⟨rfl, rfl, rfl⟩
+  · -- no prefix modifier
+    cases ar
+    · simp [pop, push]
+    · have hp : preLength ⟨.none, (ki, kl), kb, true, (ai, al), false⟩ = 0 := by simp [preLength]
+      simp only [hp, ↓reduceIte, Nat.zero_add] at hfit
+      simp only [pop, push, hp, Nat.zero_add, Bool.not_true, Bool.false_eq_true, ↓reduceIte]
+      exact restore_cut e (ai + al) hfit.1 hl _ (by rw [hsl, sl_zero])
+  · -- before / after / since at index 0
+    have hp : preLength ⟨kind, (0, kl), true, ar, (ai, al), false⟩ = kl := by
+      rcases hkind with rfl | rfl | rfl <;> simp [preLength]
+    rw [hp] at hfit
+    cases ar
+    · simp only [Bool.false_eq_true, ↓reduceIte, Nat.add_zero] at hfit
+      have key : pop ⟨kind, (0, kl), true, false, (ai, al), false⟩ true true
+          (push ⟨kind, (0, kl), true, false, (ai, al), false⟩ e).e
+          (push ⟨kind, (0, kl), true, false, (ai, al), false⟩ e).modStr =
+          (⟨(cutFront e kl).start - ((e.text.take kl).length : Int), (cutFront e kl).len + ((e.text.take kl).length : Int),
+            e.text.take kl ++ (cutFront e kl).text⟩ : Sp) := by
+        rcases hkind with rfl | rfl | rfl <;> simp [pop, push, sl_zero]
+      rw [key]
+      exact restore_cut e kl hfit.1 hl _ rfl
+    · simp only [↓reduceIte] at hfit
+      have hmod : e.text.take kl ++ ((sliceI e.text (kl : Int) (e.text.length : Int)).take (ai + al)) =
+          e.text.take (kl + (ai + al)) := by
+        rw [sliceI_drop e.text kl (by omega), take_take_drop]
+      have key : pop ⟨kind, (0, kl), true, true, (ai, al), false⟩ true true
+          (push ⟨kind, (0, kl), true, true, (ai, al), false⟩ e).e
+          (push ⟨kind, (0, kl), true, true, (ai, al), false⟩ e).modStr =
+          (⟨(cutFront e (kl + ai + al)).start - ((e.text.take (kl + (ai + al))).length : Int),
+            (cutFront e (kl + ai + al)).len + ((e.text.take (kl + (ai + al))).length : Int),
+            e.text.take (kl + (ai + al)) ++ (cutFront e (kl + ai + al)).text⟩ : Sp) := by
+        rcases hkind with rfl | rfl | rfl <;> simp [pop, push, sl_zero, hp, hmod]
+      rw [key]
+      exact restore_cut e (kl + ai + al) (by omega) hl _ (by rw [Nat.add_assoc])
+  · -- equal at index 0, no around
+    have hkl := hfit.2 (by simp)
+    simp only [pop, push, sl_zero, Bool.not_true, Bool.false_eq_true, ↓reduceIte, beq_self_eq_true]
+    have := restore_cut e kl hkl hl _ rfl
+    simpa using this
+
+/-- the seeded defect shape: if a restore block does **not** clear `has_around`, `since around 2010` is restored
+twice — start `-12`, text `since aroundsince around 2010`. -/
+theorem parser_pop_without_reset_restores_twice :
+    let t : Str := [115, 105, 110, 99, 101, 32, 97, 114, 111, 117, 110, 100, 32, 50, 48, 49, 48]
+    let f : Facts := ⟨.since, (0, 5), true, true, (1, 6), false⟩
+    let e : Sp := ⟨0, 17, t⟩
+    pop f true true (push f e).e (push f e).modStr = e ∧
+    (pop f true false (push f e).e (push f e).modStr).start = -12 ∧
+    (pop f true false (push f e).e (push f e).modStr).text =
+      [115, 105, 110, 99, 101, 32, 97, 114, 111, 117, 110, 100] ++ [115, 105, 110, 99, 101, 32, 97, 114, 111, 117, 110, 100] ++
+        [32, 50, 48, 49, 48] := by decide
+
+/-- outside the guard 1: `equal` overwrites `mod_str`, so with an `around` the approximate part is lost and the
+equal modifier is put back twice (`= around 3pm` shaped facts). -/
+theorem parser_push_pop_equal_around_counterexample :
+    let t : Str := [61, 32, 97, 114, 111, 117, 110, 100, 32, 51, 112, 109]
+    let f : Facts := ⟨.equal, (0, 1), true, true, (1, 6), false⟩
+    let e : Sp := ⟨0, 12, t⟩
+    pop f true true (push f e).e (push f e).modStr ≠ e := by decide
+
+/-- outside the guard 2: the push removes `match.length` characters, not `index + length`, so a modifier that
+does not start at index 0 of the text (leading blank) is not restored. -/
+theorem parser_push_pop_index_counterexample :
+    let t : Str := [32, 98, 101, 102, 111, 114, 101, 32, 51, 112, 109]
+    let f : Facts := ⟨.before, (1, 7), true, false, (0, 0), false⟩
+    let e : Sp := ⟨0, 11, t⟩
+    pop f true true (push f e).e (push f e).modStr ≠ e := by decide
+
+example : ∃ f : Facts, f.kind = .since ∧ f.around = true ∧ f.kindBegin = true ∧ f.kindM.1 = 0 ∧ f.isAfter = false :=
+  ⟨⟨.since, (0, 5), true, true, (1, 6), false⟩, rfl, rfl, rfl, rfl, rfl⟩
+
+end RTV.Merged
